@@ -21,6 +21,7 @@ pub fn render(v: &Value) -> Value {
     "m4" => json!({"regex": "abc"}),
     "m6" => json!({"all": [{"pattern": "foo($A)"}, {"nthChild": {"position": 1, "ofRule": {"matches": "U9"}}}]}),
     "m7" => json!({"all": [{"pattern": "foo($A)"}, {"nthChild": {"position": 1, "ofRule": {"matches": "U1"}}}]}),
+    "m8" => json!({"all": [{"pattern": "foo($A)"}, {"nthChild": {"position": 1, "ofRule": {"pattern": "$N"}}}]}),
     _ => json!({"all": [{"pattern": "foo($A)"}, {"matches": "U9"}]}),
   };
   let utils = match s("u") {
@@ -73,6 +74,7 @@ pub fn render(v: &Value) -> Value {
     "f5" => json!({"template": "bar($A)"}),
     "f7" => json!("bar($C, $D)"),
     "f8" => json!("bar($XY)"),
+    "f9" => json!("bar($N)"),
     _ => json!("bar($C)"),
   };
   let rews = match s("r") {
@@ -109,6 +111,8 @@ fn expected_fix(v: &Value) -> Value {
     "f2" | "f4" => json!(format!("bar({x})")),
     "f6" => json!("bar(abc)"),
     "f7" => json!("bar(abc, abc)"),
+    // N is the matched call itself (the first named child of its statement that `$N` matches)
+    "f9" => json!("bar(foo(abc))"),
     _ => json!("bar()"),
   }
 }
